@@ -69,6 +69,8 @@ def reset_initial_conditions(
     InitCond.day_submerged = 0
     InitCond.irr_net_cum = 0
     InitCond.dap = 0
+    InitCond.e_pot = 0
+    InitCond.t_pot = 0
 
     InitCond.aer_days_comp = np.zeros(int(Soil.nComp))
 
